@@ -1,6 +1,7 @@
 import RpmVerif.Model.PrepareData
 import RpmVerif.Lemmas.WithFile
 import RpmVerif.Lemmas.PayloadWriter
+import RpmVerif.Lemmas.BuilderSetters
 /-!
 # Lemmas for `Model/PrepareData.lean`: the state a call sequence leaves behind, and the partial steps of `prepare_data`
 -/
@@ -134,6 +135,91 @@ def Call.TsOk : Call → Prop
   | .sourceDate (.src s) => 0 ≤ s.instant.floor ∧ s.instant.floor < 4294967296
   | .changelog _ _ (.src s) => 0 ≤ s.instant.floor ∧ s.instant.floor < 4294967296
   | _ => True
+
+/-! ## the state in terms of the existing models -/
+
+/-- the metadata setter a call amounts to (a timestamp argument after its conversion; none for a conversion that fails and
+for `with_file`) -/
+def metaOf : Call → Option MetaSetter
+  | .set m => some m
+  | .sourceDate t => (timestampSetter t).toOption.map .sourceDate
+  | .changelog n e t => (timestampSetter t).toOption.map (.changelog n e)
+  | .file _ => none
+
+def fileOf : Call → Option WithFile.Call
+  | .file c => some c
+  | _ => none
+
+/-- **the metadata part of the state after a successful call sequence is `Cfg.applyAll` of the metadata calls** (`with_file`
+calls in between do not touch it) -/
+theorem run_base {sha256hex : Bytes → Bytes} {valid : Bytes → Bool} {calls : List Call} {s s' : St}
+    (h : run sha256hex valid calls s = .ok s') : s'.base = s.base.applyAll (calls.filterMap metaOf) := by
+  induction calls generalizing s with
+  | nil => cases h; rfl
+  | cons c r ih =>
+    obtain ⟨s1, h1, h2⟩ := run_cons_ok h
+    rw [ih h2]
+    cases c with
+    | set m => simp only [step, Out.ok.injEq] at h1; subst h1; rfl
+    | sourceDate t =>
+      simp only [step] at h1
+      cases hs : AddData.sourceDate t with
+      | ok n =>
+        rw [hs] at h1; simp only [Out.map, Out.ok.injEq] at h1; subst h1
+        have : timestampSetter t = .ok n := hs
+        simp only [List.filterMap_cons, metaOf, this, Out.toOption, Option.map_some]; rfl
+      | err e => rw [hs] at h1; cases h1
+      | panic p => rw [hs] at h1; cases h1
+    | changelog name entry t =>
+      simp only [step] at h1
+      cases hs : addChangelogEntry name entry t with
+      | ok n =>
+        rw [hs] at h1; simp only [Out.map, Out.ok.injEq] at h1; subst h1
+        have : timestampSetter t = .ok n := hs
+        simp only [List.filterMap_cons, metaOf, this, Out.toOption, Option.map_some]; rfl
+      | err e => rw [hs] at h1; cases h1
+      | panic p => rw [hs] at h1; cases h1
+    | file wc =>
+      simp only [step] at h1
+      cases hs : runCall sha256hex valid wc with
+      | ok e => rw [hs] at h1; simp only [Out.map, Out.ok.injEq] at h1; subst h1; rfl
+      | err e => rw [hs] at h1; cases h1
+      | panic p => rw [hs] at h1; cases h1
+
+/-- **the file part of the state is `WithFile.buildState` of the `with_file` calls** (the model C06's `with_file_readback`,
+`readback_flags_of_setters`, `defaults_readback` are stated for) -/
+theorem run_files {sha256hex : Bytes → Bytes} {valid : Bytes → Bool} {calls : List Call} {s s' : St}
+    (h : run sha256hex valid calls s = .ok s') :
+    buildState sha256hex valid (calls.filterMap fileOf) ⟨s.fes.map (·.1), s.dirs⟩ = .ok ⟨s'.fes.map (·.1), s'.dirs⟩ := by
+  induction calls generalizing s with
+  | nil => cases h; rfl
+  | cons c r ih =>
+    obtain ⟨s1, h1, h2⟩ := run_cons_ok h
+    cases c with
+    | set m => simp only [step, Out.ok.injEq] at h1; subst h1; have := ih h2; exact this
+    | sourceDate t =>
+      simp only [step] at h1
+      cases hs : AddData.sourceDate t with
+      | ok n => rw [hs] at h1; simp only [Out.map, Out.ok.injEq] at h1; subst h1; have := ih h2; exact this
+      | err e => rw [hs] at h1; cases h1
+      | panic p => rw [hs] at h1; cases h1
+    | changelog name entry t =>
+      simp only [step] at h1
+      cases hs : addChangelogEntry name entry t with
+      | ok n => rw [hs] at h1; simp only [Out.map, Out.ok.injEq] at h1; subst h1; have := ih h2; exact this
+      | err e => rw [hs] at h1; cases h1
+      | panic p => rw [hs] at h1; cases h1
+    | file wc =>
+      simp only [step] at h1
+      cases hs : runCall sha256hex valid wc with
+      | ok e =>
+        rw [hs] at h1; simp only [Out.map, Out.ok.injEq] at h1; subst h1
+        simp only [List.filterMap_cons, fileOf, buildState, hs]
+        have := ih h2
+        simp only [insertFE_map] at this
+        exact this
+      | err e => rw [hs] at h1; cases h1
+      | panic p => rw [hs] at h1; cases h1
 
 /-! ## the steps of `prepare_data` -/
 
